@@ -774,6 +774,8 @@ def make_case(rng, size, pos, evaluator, budget, noise, reuse, descend=None):
         # the caller changes the exploration constant of the live engine AFTER the search and asks for
         # the distributions of the same tree again (C09: the multiplier is the engine's C as it stands)
         "report_C": rng.choice([None, None, None, 2.5, 0.75]),
+        # MCTS.print_tree is called on the tree after every search phase
+        "dump": rng.random() < 0.3,
     }
 
 
@@ -873,7 +875,7 @@ def run_case(case, hold_root=False, shared=None):
                 ci = pool[(pick // 10) % len(pool)]
                 tree = kids[ci]
                 root_path = ci
-                n = int(tree.simulations) + n
+                n = max(1, int(tree.simulations) + n)  # a limit of 0 would mean "no limit"
             try:
                 try:
                     start = fresh_text(pos) if tree is None else dump_tree(tree, rec.ev_of)
@@ -920,6 +922,17 @@ def run_case(case, hold_root=False, shared=None):
                 break
             if res.root_tree is None:
                 res.root_tree = tree
+            if case.get("dump") and tree.children and tree.simulations > 0:
+                # the caller looks at the tree (MCTS.print_tree) before going on with it: looking changes nothing
+                import contextlib
+                import io
+
+                try:
+                    with contextlib.redirect_stdout(io.StringIO()):
+                        engine.print_tree(tree)
+                except Exception as e:
+                    res.error = "print_tree raised %s: %s" % (type(e).__name__, str(e)[:160])
+                    break
             try:
                 dump = dump_tree(tree, rec.ev_of)
             except NonFinite as e:
